@@ -167,7 +167,18 @@ def run(tape, scenario):
                          eeprom=image, eeprom_8byte=not tape.chance("c17/4byte", 50),
                          mailbox_app=adapter)
         maxbusy = tape.draw("c17/maxbusy", 4)
-        st.ee_delay = lambda maxbusy=maxbusy: tape.draw("c17/busy", maxbusy + 1)
+        # "however long it reports busy": in some runs one read of this terminal stays busy
+        # for hundreds of polls
+        long_at = tape.draw("c17/long-busy-at", 40) if tape.chance("c17/long-busy", 12) else None
+        calls = [0]
+
+        def ee_delay(maxbusy=maxbusy, long_at=long_at, calls=calls):
+            calls[0] += 1
+            if calls[0] - 1 == long_at:
+                world.count("c17/eeprom-busy-for-hundreds-of-polls")
+                return 150 + tape.draw("c17/long-busy-polls", 500)
+            return tape.draw("c17/busy", maxbusy + 1)
+        st.ee_delay = ee_delay
         st.ee_junk = lambda: tape.bytes("c17/junk", 4)
         st.mbx_delay = lambda: tape.draw("c17/mbx-delay", 3)
         env.bus.add_terminal(st)
